@@ -76,4 +76,7 @@ def run(tier):
         if d == "diagnostic_set":
             detail = "|" + re.sub(r"[0-9]+", "N", sorted(set(a["msgs"]) ^ set(b["msgs"]))[0])[:60]
         ck.violation(f"backend|{d}{detail}", w)
+    if tier == "thorough":
+        from vlib import cov
+        cov.report(ck, "C18", srcs)
     return ck.finish()
